@@ -8,6 +8,9 @@ def body(chk):
     run_prefix.obligations(chk, 'C06', which=('concurrency',))
     sched.get_obligations(chk, 'C06')
     sched_worlds.run(chk, 'C06')
+    # CLI options installed through Cucumber::with_cli() survive the builder methods called afterwards
+    from checks import cucumber_builders
+    cucumber_builders.obligations(chk, 'C06')
 
 
 if __name__ == '__main__':
